@@ -442,6 +442,8 @@ def rule_axis(prog: Program, modules: Set[str]) -> List[Instance]:
                         else:
                             out.append(Instance("R-AXIS", cid, BAD, f"`{short(n, 70)}`: the {'row' if want == Y else 'column'} slice is built from {sorted(tags)} quantities (rows are y, columns are x)", fi.where(n)))
             # ---------------- T7: axis-named local assigned from a value of the other axis
+            if isinstance(n, ast.AnnAssign) and n.value is not None and isinstance(n.target, ast.Name):
+                n = ast.copy_location(ast.Assign(targets=[n.target], value=n.value), n)
             if isinstance(n, ast.Assign) and len(n.targets) == 1 and isinstance(n.targets[0], ast.Name):
                 tb = b.of(n.targets[0].id)
                 tv = ty.tag(n.value)
